@@ -5,6 +5,7 @@ from __future__ import annotations
 import ast
 
 from sa.astutil import (
+    loop_exits,
     arg_or_kw,
     call_name,
     calls_in,
@@ -334,7 +335,7 @@ def r3_group_loop(ctx):
         node=call,
         facts={"min": lo, "max": hi, "skip_paths": len(skip_nodes)},
     )
-    for n in walk_ordered(loop):
+    for n in loop_exits(loop):
         if isinstance(n, (ast.Break, ast.Return)):
             ctx.fail(c + "#exit", f"{type(n).__name__.lower()} inside the group loop ends the pipeline early", where=f, node=n)
     # nothing may leave the function before the loop on a normal path
@@ -513,7 +514,7 @@ def r4_model_loop(ctx):
         a0 = cl.args[0] if cl.args else kw(cl, "detector")
         aok = a0 is not None and dotted(expand(run, a0)) == "detector" and len(cl.args) + len(cl.keywords) == 1
         ctx.check(aok, c + "#arg", "model(detector)" if aok else f"model called as {norm(cl)}", where=run, node=cl)
-    for n in walk_ordered(lp):
+    for n in loop_exits(lp):
         if isinstance(n, (ast.Break, ast.Return, ast.Continue)):
             # continue/break/return before the model call skips models
             if n.lineno <= max(cl.lineno for cl in direct):
